@@ -37,7 +37,7 @@ fn raw_list(r: &mut Rng) -> Req {
     Req::RawList { n, fail_at, shape: r.below(7) as u64 }
 }
 
-pub const NUM_DIRECTED: u64 = 35;
+pub const NUM_DIRECTED: u64 = 36;
 
 /// Directed scenarios; `variant` varies seeds / small timing offsets.
 pub fn directed(idx: u64, variant: u64, d: Duration) -> Scenario {
@@ -294,6 +294,16 @@ pub fn directed(idx: u64, variant: u64, d: Duration) -> Scenario {
             first.push(Step::Do(Req::Raw { shape: 7 }));
             s.callers = vec![(ms(5), first), (ms(500 + 15 + (variant / 5 % 3) * 30), vec![Step::Do(Req::Raw { shape: 1 })])];
             s.notifications = vec![(ms(500), vec!["player".into(), "mixer".into(), "options".into()])];
+        }
+        // a flood: hundreds of requests issued at the same instant by three callers (far more than any internal queue
+        // bound one might think of); every one of them gets its own reply, per-caller order kept
+        35 => {
+            let n = [129usize, 200, 300, 1000, 140, 520][(variant % 6) as usize];
+            s.world.reply_delay = vec![ms(variant / 6 % 2)];
+            s.callers.push((ms(20), vec![Step::Pipelined((0..n / 2).map(|k| Req::Raw { shape: if k % 50 == 7 { 1 } else { 0 } }).collect())]));
+            s.callers.push((ms(20), vec![Step::Pipelined((0..n - n / 2).map(|_| Req::Raw { shape: 0 }).collect())]));
+            s.callers.push((ms(20), vec![Step::Do(Req::Raw { shape: 2 }), Step::Do(Req::Raw { shape: 1 })]));
+            s.notifications = vec![(ms(21), vec!["player".into()])];
         }
         // cancelled call whose request is still executed by the server, next caller right behind
         _ => {
